@@ -135,6 +135,42 @@ def jac_newparams(cx):
     return "ok"
 
 
+def _g(c, k, x, y):
+    # c: tensor that does not require grad, k: python number
+    return c * x * x * y + k * x * y * y
+
+
+def jac_newparams_nd(cx, which="jac"):
+    """argument selection when non-differentiable arguments precede the selected one, on the re-evaluation path"""
+    c = cx.sym("c", (2,))
+    x = cx.sym("x", (2,), requires_grad=True)
+    y = cx.sym("y", (2,), requires_grad=True)
+    v = cx.sym("v", (2,))
+    u = cx.sym("u", (2,))
+    x2 = cx.sym("x2", (2,), requires_grad=True)
+    y2 = cx.sym("y2", (2,), requires_grad=True)
+    if which == "jac":
+        op = jac(_g, (c, 1.5, x, y), idxs=2)
+        J = _dense_jac(_g(c, 1.5, x, y), x)
+        J2 = _dense_jac(_g(c, 1.5, x2, y2), x2)
+    else:
+        sc = lambda c_, k_, x_, y_: (_g(c_, k_, x_, y_) * x_).sum()
+        op = hess(sc, (c, 1.5, x, y), idxs=2)
+        g, = torch.autograd.grad(sc(c, 1.5, x, y), x, create_graph=True)
+        J = _dense_jac(g, x)
+        g2, = torch.autograd.grad(sc(c, 1.5, x2, y2), x2, create_graph=True)
+        J2 = _dense_jac(g2, x2)
+    _check_ops(cx, op, J, "/built", with_H=False)
+    old = op.getlinopparams()
+    cx.claim_true("operator parameters are the differentiable tensors", len(old) == 2 and old[0] is x and old[1] is y,
+                  detail=str(len(old)))
+    with op.uselinopparams(x2, y2):
+        _check_ops(cx, op, J2, "/replaced", with_H=False)
+    cx.claim_eq("mv after restore", op.mv(v), torch.matmul(J, v))
+    cx.claim_eq("rmv after restore", op.rmv(u), torch.matmul(J.transpose(-2, -1), u))
+    return "ok"
+
+
 def _phi(x, A, s):
     # scalar function with a non-trivial Hessian in x, A and s
     return (x * torch.matmul(A * A, x * x)).sum() + s * s * (x[0] * x[1]) + s * A[0, 1]
@@ -204,6 +240,8 @@ def configs(tier):
     add("jac/module/int0/batch2", jac_products, kind="module", idxs=0, bshape=(2,))
     add("jac/differentiable", jac_differentiable)
     add("jac/newparams", jac_newparams)
+    add("jac/newparams/nondiff_args_first", jac_newparams_nd, which="jac")
+    add("hess/newparams/nondiff_args_first", jac_newparams_nd, which="hess")
     add("hess/int0", hess_products, idxs=0)
     add("hess/int0/batch2", hess_products, idxs=0, bshape=(2,))
     add("hess/list01", hess_products, idxs=[0, 1])
